@@ -27,8 +27,12 @@ def gen_ws(r, allow_empty=True):
 def gen_value(r, delim):
     kind = r.choice(['int', 'int', 'hex', 'float', 'float', 'str', 'str', 'str'])
     if kind == 'int':
-        n = r.choice([0, 1, 7, 42, 2 ** 31, 10 ** 20, r.randint(-10 ** 6, 10 ** 6)])
-        return kind, str(n), n
+        n = r.choice([0, 1, 7, 42, 2 ** 31, 10 ** 20, 9007199254740993, r.randint(-10 ** 6, 10 ** 6)])
+        lex = str(n)
+        if r.random() < 0.2:
+            # zero-padded decimals are decimal integers too (Siemens pads some fields)
+            lex = ('-' if n < 0 else '') + '0' * r.randint(1, 3) + str(abs(n))
+        return kind, lex, n
     if kind == 'hex':
         n = r.choice([0, 1, 255, 0x1F, 0xABCDEF, r.randint(0, 2 ** 32)])
         lex = ('0x%x' if r.random() < 0.5 else '0x%X') % n
